@@ -32,6 +32,7 @@ from ..lang import Constant, Sentence
 from ..tools import (EMPTY_MAP, EMPTY_SET, MapCover, SequenceSet, SetView,
                      abcs, dictattr, isattrstr, isint, qset)
 from ..tools.events import EventEmitter
+from .. import _verif
 from . import BranchMeta, NodeMeta, WorldPair
 
 if TYPE_CHECKING:
@@ -52,6 +53,8 @@ class Node(MapCover, abcs.Copyable, metaclass=NodeMeta):
     'A tableau node.'
 
     __slots__ = ('step', 'ticked')
+    if _verif.ENABLED:
+        __slots__ += ('_vh',)
 
     def __init__(self, mapping = EMPTY_MAP, /):
         if mapping is self:
@@ -117,6 +120,14 @@ class Node(MapCover, abcs.Copyable, metaclass=NodeMeta):
 
     def __hash__(self):
         return id(self)
+
+    if _verif.ENABLED:
+        def __hash__(self):
+            try:
+                return self._vh
+            except AttributeError:
+                self._vh = _verif.next_hash()
+                return self._vh
 
     __delattr__ = Emsg.Attribute.razr
 
@@ -258,6 +269,8 @@ class Branch(SequenceSet[Node], EventEmitter, abcs.Copyable, metaclass=BranchMet
         '_worlds',
         'constants',
         'worlds')
+    if _verif.ENABLED:
+        __slots__ += ('_vh',)
 
     INDEX_KEYS = (
         (Node.Key.sentence,),
@@ -498,6 +511,14 @@ class Branch(SequenceSet[Node], EventEmitter, abcs.Copyable, metaclass=BranchMet
 
     def __hash__(self):
         return id(self)
+
+    if _verif.ENABLED:
+        def __hash__(self):
+            try:
+                return self._vh
+            except AttributeError:
+                self._vh = _verif.next_hash()
+                return self._vh
 
     def __contains__(self, node):
         return node in self._nodes
